@@ -5,6 +5,7 @@ package c14
 import (
 	"fmt"
 	"testing"
+	"unsafe"
 
 	"github.com/openacid/low/bitmap"
 	"pgregory.net/rapid"
@@ -37,7 +38,7 @@ var checker = &vk.Checker[Case]{
 	Rule: "Join: width in {1,2,4,8,16,32,64} x value lists of length 0..200 whose values carry bits above the width (random, all-ones, 1<<w); result checked bit by bit, length ceil(len*w/64), Getw at every index; Getw alone on arbitrary bitmaps at every index; " +
 		"Slice on bitmaps <= 12 words (thorough <= 100) x ranges 0<=from<=to<=64*len (aligned, unaligned, empty, multi-word): length ceil((to-from)/64), bit j = input bit from+j, remaining bits 0, input unchanged. Grid: Slice on 12 bitmaps of <= 3 words x all (from,to); Join/Getw all widths x lengths 0..20 x 3 value styles. " +
 		"Also the MAXIMUM bitmap - exactly 2^25 words = 2^31 bits, the largest one int32 positions address (three sparse descriptions, oracle from the description): Slice of short ranges ending at the top and around every set word, Getw at the last indexes of every width; thorough also slices the whole bitmap. " +
-		"Non-trivial: Join with w>=4, >=2 values and a value with bits above w; Slice with unaligned from spanning >= 2 input words; Getw with w>=4 on a bitmap with both 0 and 1 bits. Distinct by hash of the case.",
+		"A result may share memory with the argument (not forbidden), not with the library: results are re-read after later calls. Non-trivial: Join with w>=4, >=2 values and a value with bits above w; Slice with unaligned from spanning >= 2 input words; Getw with w>=4 on a bitmap with both 0 and 1 bits. Distinct by hash of the case.",
 	Check:    check,
 	Classify: classify,
 }
@@ -89,19 +90,19 @@ func checkJoin(keep []uint64, w int32) (f *vk.Failure) {
 			return vk.Failf("join-mutates", "Join modified values[%d]", i)
 		}
 	}
-	// the result belongs to the caller: overwriting it (and its spare capacity) must not reach the argument,
-	// and it must still read the same after later calls
+	// A result that shares memory with the ARGUMENT (Join with w = 64 handing back its list) is not forbidden by
+	// the statement: it stays right as long as the caller leaves its own list alone. A result that shares memory
+	// with the LIBRARY (a pooled or cached buffer) is not: it changes when the library is called again. So the
+	// result is watched after later calls - unless it overlaps an argument buffer that this check itself is
+	// about to reuse - and only spare capacity that is not the argument's is overwritten.
+	shared := overlaps(r, values)
+	if shared && reused {
+		return nil
+	}
 	expect := append([]uint64(nil), r...)
-	for i := range r {
-		r[i] = ^r[i]
+	if !shared {
+		vk.ScribbleU64(r)
 	}
-	vk.ScribbleU64(r)
-	for i := range keep {
-		if keep[i] != values[i] {
-			return vk.Failf("join-result-aliases-argument", "overwriting the result of Join(%d values, w=%d) changed values[%d]: the result shares memory with the argument", len(keep), w, i)
-		}
-	}
-	copy(r, expect)
 	keepResult(func() string {
 		for i := range expect {
 			if r[i] != expect[i] {
@@ -111,6 +112,16 @@ func checkJoin(keep []uint64, w int32) (f *vk.Failure) {
 		return ""
 	})
 	return nil
+}
+
+// overlaps reports whether the backing arrays (up to capacity) of two slices share memory.
+func overlaps(a, b []uint64) bool {
+	if cap(a) == 0 || cap(b) == 0 {
+		return false
+	}
+	a, b = a[:cap(a)], b[:cap(b)]
+	pa, pb := uintptr(unsafe.Pointer(&a[0])), uintptr(unsafe.Pointer(&b[0]))
+	return pa < pb+8*uintptr(len(b)) && pb < pa+8*uintptr(len(a))
 }
 
 func checkGetw(keep []uint64, w int32) *vk.Failure {
@@ -172,17 +183,16 @@ func checkSlice(keep []uint64, from, to int32) (f *vk.Failure) {
 			return vk.Failf("slice-mutates", "Slice modified input word %d", i)
 		}
 	}
+	// (sharing memory with the argument - a zero-copy view of whole aligned words - is not forbidden by the
+	// statement, sharing it with the library is: see checkJoin)
+	shared := overlaps(r, words)
+	if shared && reused {
+		return nil
+	}
 	expect := append([]uint64(nil), r...)
-	for i := range r {
-		r[i] = ^r[i]
+	if !shared {
+		vk.ScribbleU64(r)
 	}
-	vk.ScribbleU64(r)
-	for i := range keep {
-		if keep[i] != words[i] {
-			return vk.Failf("slice-result-aliases-argument", "overwriting the result of Slice(bm, %d, %d) changed input word %d: the result shares memory with the argument", from, to, i)
-		}
-	}
-	copy(r, expect)
 	keepResult(func() string {
 		for i := range expect {
 			if r[i] != expect[i] {
@@ -235,16 +245,7 @@ func checkMaxSlice(v int, from, to int32) *vk.Failure {
 	if k, bad := gen.MaxBitmapDamage(); bad {
 		return vk.Failf("slice-mutates", "Slice modified word %d of the 2^25-word bitmap", k)
 	}
-	if len(r) <= 1<<16 {
-		for i := range r {
-			r[i] = ^r[i]
-		}
-		vk.ScribbleU64(r)
-		if k, bad := gen.MaxBitmapDamage(); bad {
-			gen.UseMax((v + 1) % gen.MaxVariants) // rewrite the shared array for whoever comes next
-			return vk.Failf("slice-result-aliases-argument", "overwriting the result of Slice(bm, %d, %d) changed word %d of the 2^25-word input", from, to, k)
-		}
-	}
+	// (the result is not written to: a zero-copy view of the shared array would be legitimate, see checkJoin)
 	return nil
 }
 
